@@ -32,7 +32,7 @@ SUMMARY = {
  "C12b": "WriteTo computes the meta checksum once: meta 1 of every copy carries meta 0's checksum",
  "C17b": "Open no longer closes (unlocks) the file when getPageSize fails: a failed open of a < 2 KiB file keeps the flock",
  "C19b": "page type predicates test a bit instead of the exact value (invalid types containing the expected bit pass the check)",
- "C07b": "",
+ "C07b": "same patch as C08b (independent sub-agent): the C07 view is the page leak that remains after the caller's tx.Rollback()",
 }
 rows = []
 for d in sorted(glob.glob("/verif/seeded/*/meta.json")):
